@@ -1,7 +1,7 @@
 EXPLANATION = ('C12: Box (index lists, bounds validation) and the operation kernels of FieldProps.cpp (apply: EQUALS/MULTIPLY/ADD/MINVALUE/MAXVALUE; assign_deck with defaulted entries) '
   'on a 2x2x2 grid with symbolic ACTNUM cells, symbolic box corners, operands and value-status flags, compared cell by cell with a reference interpreter on the global array.')
 BOUNDS = '2x2x2 grid (thorough: 3x2x2), 3 cells with symbolic activity + 1 fixed inactive, every sub-box, sequences of two operations (first: harness split, second: symbolic kind), all real operands'
-OUTSIDE = 'scan*Section drivers and keyword dispatch, keyword default tables, COPY/OPERATE/region variants via the string-keyed maps, porv/multiplier post-processing, integer arrays'
+OUTSIDE = 'scan*Section drivers and keyword dispatch, keyword default tables, COPY and the region variants via the string-keyed maps, the OPERATE driver (its function table is covered), porv/multiplier post-processing, integer arrays'
 ASSUMPTIONS = ['doubles as reals']
 TUS = ['opm/input/eclipse/EclipseState/Grid/Box.cpp', 'opm/input/eclipse/EclipseState/Grid/GridDims.cpp', 'opm/input/eclipse/Deck/DeckKeyword.cpp', 'opm/common/OpmLog/KeywordLocation.cpp']
 def jobs(tier):
@@ -9,4 +9,7 @@ def jobs(tier):
     for op in range(5):
         out.append(dict(name='scalar_op%d' % op, src='h_fieldops.cpp', defs={'OP1': op}, entry='h_scalar_ops', tus=TUS, fp='real', loopmax=4000, maxsteps=100000000, timeout=290, bounds='first operation %d on every sub-box, second operation symbolic on the whole grid' % op))
     out.append(dict(name='deck_ops', src='h_fieldops.cpp', defs={}, entry='h_deck_ops', tus=TUS, fp='real', loopmax=4000, maxsteps=100000000, bounds='assign_deck on every sub-box, deck entries deck/default/empty (symbolic)'))
+    DT = TUS + ['opm/input/eclipse/Deck/DeckRecord.cpp', 'opm/input/eclipse/Deck/DeckItem.cpp', 'opm/input/eclipse/Deck/UDAValue.cpp', 'opm/input/eclipse/Units/Dimension.cpp']
+    out.append(dict(name='box_update', src='h_operate.cpp', defs={}, entry='h_box_update', tus=DT, fp='real', loopmax=4000, maxsteps=40000000, opts=['--ctors'], bounds='2x3x4 grid, every given/defaulted pattern of the six corners, corners at the axis ends or one cell inside'))
+    out.append(dict(name='operate_functions', src='h_operate.cpp', defs={}, entry='h_operate', tus=['opm/input/eclipse/EclipseState/Grid/Operate.cpp'], fp='real', loopmax=4000, maxsteps=40000000, opts=['--ctors'], bounds='the 14 OPERATE functions, all real R, X, alpha, beta (pow/log uninterpreted)'))
     return out
